@@ -44,16 +44,42 @@ func mldsaShapes(inst int, th bool) []MLDSAMat {
 
 // RSAMat is one RSA key with the shape of its encodings.
 type RSAMat struct {
-	Shape string
-	K     *ref.KSRSA
-	Pad   int // extra leading zero bytes given to the constructors (modulus, d, p, q)
+	Shape   string
+	K       *ref.KSRSA
+	Pad     int  // extra leading zero bytes given to the constructors (modulus, d, p, q)
+	PubOnly bool // crafted modulus of the wanted bit length: public key only
 }
+
+// craftedBits: modulus sizes that are not multiples of 8 / sit next to a byte boundary, served by crafted
+// public-only moduli (2049 and 2055 additionally have an embedded real key).
+var craftedBits = map[int]bool{2049: true, 2050: true, 2055: true, 2056: true, 2057: true}
 
 // rsaShapes: keys available for (bits, e). Fixed primes; for e != 65537 the private exponent is
 // recomputed. Shapes: two fixed keys, zero-padded inputs (thorough: both keys padded).
 func rsaShapes(bits, e int, th bool) []RSAMat {
-	if _, ok := ref.RSATestKeyHex[bits]; !ok {
+	_, std := ref.RSATestKeyHex[bits]
+	_, odd := ref.KSRSAOddKeyHex[bits]
+	if !std && !odd && !craftedBits[bits] {
 		return nil
+	}
+	if !std {
+		return cached(fmt.Sprintf("rsa-odd/%d/%d", bits, e), func() []RSAMat {
+			var out []RSAMat
+			if odd {
+				k := ref.KSRSAFixed(bits, 0)
+				ok := true
+				if e != 65537 {
+					k, ok = ref.KSRSAWithExponent(k, e)
+				}
+				if ok {
+					out = append(out, RSAMat{Shape: "odd-fixed0", K: k})
+				}
+			}
+			n := ref.KSRSACraftedModulus(bits)
+			out = append(out, RSAMat{Shape: "crafted-public", K: ref.KSRSAPublicOnly(bits, e, n), PubOnly: true},
+				RSAMat{Shape: "crafted-public+pad1", K: ref.KSRSAPublicOnly(bits, e, n), Pad: 1, PubOnly: true})
+			return out
+		})
 	}
 	all := cached(fmt.Sprintf("rsa/%d/%d", bits, e), func() []RSAMat {
 		var out []RSAMat
@@ -65,10 +91,10 @@ func rsaShapes(bits, e int, th bool) []RSAMat {
 					continue
 				}
 			}
-			out = append(out, RSAMat{fmt.Sprintf("fixed%d", idx), k, 0})
+			out = append(out, RSAMat{Shape: fmt.Sprintf("fixed%d", idx), K: k})
 		}
 		if len(out) > 0 {
-			out = append(out, RSAMat{out[0].Shape + "+pad1", out[0].K, 1})
+			out = append(out, RSAMat{Shape: out[0].Shape + "+pad1", K: out[0].K, Pad: 1})
 		}
 		return out
 	})
@@ -99,6 +125,9 @@ func pad(b []byte, n int) []byte { return append(make([]byte, n), b...) }
 
 func rsaMats(m RSAMat) []Mat {
 	k := m.K
+	if m.PubOnly {
+		return []Mat{{Name: "n", B: k.N, BigInt: true, Field: "n"}}
+	}
 	return []Mat{{Name: "n", B: k.N, BigInt: true, Field: "n"}, {Name: "d", B: k.D, Secret: true, BigInt: true, Field: "d"}, {Name: "p", B: k.P, Secret: true, BigInt: true, Field: "p"},
 		{Name: "q", B: k.Q, Secret: true, BigInt: true, Field: "q"}, {Name: "dp", B: k.DP, Secret: true, BigInt: true, Field: "dp"}, {Name: "dq", B: k.DQ, Secret: true, BigInt: true, Field: "dq"},
 		{Name: "qinv", B: k.QInv, Secret: true, BigInt: true, Field: "crt"}}
@@ -126,7 +155,7 @@ func rsaKeyDomain(bits, e int, th bool) bool {
 	if e == 65537 {
 		return true
 	}
-	if e == 65539 && (th || bits == 2048) {
+	if e == 65539 && (th || bits == 2048 || bits == 2049) {
 		return true
 	}
 	if se, ok := RSAShortDExponent(2048); ok && bits == 2048 && e == se {
@@ -364,7 +393,7 @@ func init() {
 					return nil, err
 				}
 				var k key.Key
-				if pp.PublicExponent() == 65537 {
+				if pp.PublicExponent() == 65537 && !m.PubOnly {
 					// the signer (and NewPrivateKey's self check) supports e = 65537 only: other exponents: public key only
 					k, err = rsassapkcs1.NewPrivateKey(pub, rsassapkcs1.PrivateKeyValues{P: sb(pad(m.K.P, m.Pad)), Q: sb(pad(m.K.Q, m.Pad)), D: sb(pad(m.K.D, m.Pad))})
 					if err != nil {
@@ -431,7 +460,7 @@ func init() {
 					return nil, err
 				}
 				var k key.Key
-				if pp.PublicExponent() == 65537 {
+				if pp.PublicExponent() == 65537 && !m.PubOnly {
 					// the signer (and NewPrivateKey's self check) supports e = 65537 only: other exponents: public key only
 					k, err = rsassapss.NewPrivateKey(pub, rsassapss.PrivateKeyValues{P: sb(pad(m.K.P, m.Pad)), Q: sb(pad(m.K.Q, m.Pad)), D: sb(pad(m.K.D, m.Pad))})
 					if err != nil {
